@@ -574,6 +574,11 @@ def execute(case: dict) -> dict:  # noqa: C901, PLR0912, PLR0915
                     preqs.setdefault(pkt.cause, []).append((pkt, pl))
             except Exception as e:  # noqa: BLE001
                 world.probe("undecodable_from_B:" + type(e).__name__)
+        handed: dict = {}         # receiver -> [(delivery time, {addresses B handed out})]
+        for pkt, lan_i, wan_i in intros:
+            if pkt.id in delivered:
+                recv, when = delivered[pkt.id]
+                handed.setdefault(recv, []).append((when, {lan_i, wan_i}))
         pair_keys = set()
         judged = 0
         seen_pairs = set()
@@ -651,15 +656,23 @@ def execute(case: dict) -> dict:  # noqa: C901, PLR0912, PLR0915
                           f"trace: {trace({r_name, i_name})}")
                 continue
             # ---- (3) same NAT: over the LAN
-            exch = lan_exchange(r_name, i_name) or lan_exchange(i_name, r_name)
             if place == "same":
-                if exch:
+                exs = sorted(exchanges(r_name, i_name) + exchanges(i_name, r_name), key=lambda e: e[0].id)
+                if any(e[2] for e in exs):
                     world.probe("same_nat_pair_over_lan")
                 else:
-                    c.violate("lan", "same_nat_pair_not_over_lan",
-                              f"{r_name} {t.lan(r_name)} and {i_name} {t.lan(i_name)} share NAT {t.nat(r_name).wan_ip} "
-                              f"({t.kind[r_name]}) and became peers, but no introduction request/response pair between "
-                              f"them travelled over LAN addresses. trace: {trace({r_name, i_name})}")
+                    # connected through the NAT (hairpin).  Judged only when the address used was handed out by B to
+                    # the sender: a NATed third peer that introduces what it sees is not what the statement is about.
+                    by_b = [e for e in exs if any(when <= e[0].t and tuple(e[0].dst) in addrs
+                                                  for when, addrs in handed.get(e[0].src_node, ()))]
+                    if by_b or not exs:
+                        c.violate("lan", "same_nat_pair_not_over_lan",
+                                  f"{r_name} {t.lan(r_name)} and {i_name} {t.lan(i_name)} share NAT "
+                                  f"{t.nat(r_name).wan_ip} ({t.kind[r_name]}), B introduced lan={lan_i} wan={wan_i} and "
+                                  f"they became peers, but no introduction request/response pair between them "
+                                  f"travelled over LAN addresses. trace: {trace({r_name, i_name})}")
+                    else:
+                        world.probe("same_nat_pair_connected_by_foreign_introduction")
             elif place == "different" and t.kind[i_name] in ("addr", "port") and punched(t, r_name, i_name):
                 world.probe("hole_punch_needed_and_worked")
         # evidence: punctures that died at a restricted NAT
@@ -685,18 +698,19 @@ def execute(case: dict) -> dict:  # noqa: C901, PLR0912, PLR0915
                     "nat_drops": {nat.wan_ip: len(nat.drops) for nat in net.nats.values()},
                     "trace": trace(set(t.nodes), 24)}
 
-    def lan_exchange(x: str, y: str) -> bool:
-        """A delivered introduction request x->y and its delivered response y->x, both untranslated to private dst."""
+    def exchanges(x: str, y: str) -> list:
+        """Completed exchanges (request x->y delivered, its response y->x delivered): (request, response, over LAN?)."""
+        out = []
         for pid, (recv, _) in delivered.items():
             pkt = sent[pid]
-            if (pkt.src_node == x and recv == y and pkt.data[22] in REQ_IDS and _private(pkt.dst[0])
-                    and tuple(pkt.wire_src) == tuple(pkt.src)):
-                for pid2, (recv2, _) in delivered.items():
-                    p2 = sent[pid2]
-                    if (p2.cause == pid and p2.src_node == y and recv2 == x and p2.data[22] in RESP_IDS
-                            and _private(p2.dst[0]) and tuple(p2.wire_src) == tuple(p2.src)):
-                        return True
-        return False
+            if len(pkt.data) < 23 or pkt.src_node != x or recv != y or pkt.data[22] not in REQ_IDS:
+                continue
+            for pid2, (recv2, _) in delivered.items():
+                p2 = sent[pid2]
+                if p2.cause == pid and p2.src_node == y and recv2 == x and len(p2.data) > 22 and p2.data[22] in RESP_IDS:
+                    lan = all(_private(q.dst[0]) and tuple(q.wire_src) == tuple(q.src) for q in (pkt, p2))
+                    out.append((pkt, p2, lan))
+        return out
 
     def punched(t: Topo, r: str, i: str) -> bool:
         """i's puncture towards r's WAN address left before r's first request reached i."""
